@@ -10,10 +10,11 @@ open OdlModel OdlModel.OpAlgebra
 answers `ok tree=… dom=… ran=… lin=0|1 fn=0|1 ty=… linof=0|1 tt=0|1 val=… inp=… den=…` or
 `raise ty=… tt=0|1` (`tt`: the dispatch through the extracted tables gives the same object).
 
-leaf   : `scalef~c` `powf~p` (field -> field) `mat~ndom~nran~rows` `scale~n~c` `ident~n` `pow~n~p` `inner~n~y` `l2sq~n` `constf~n~c`
+leaf   : `<lin><fn>~` + one of `repart~n` `impart~n` `scalef~c` `powf~p` (field -> field) `mat~ndom~nran~rows` `scale~n~c` `ident~n` `pow~n~p` `inner~n~y` `l2sq~n` `constf~n~c`
          `zerof~n` `linf~n~y` (leaf id = position)
 tokens : `L~id` `neg` `pow~n` `add` `sub` `mul` `pprod` `quot`
-         `s.lmul~c` `s.rmul~c` `s.div~c` `s.add~c` `s.radd~c` `s.sub~c` `s.rsub~c`
+         `s.lmul~c~r` `s.rmul~c~r` `s.div~c~r` `s.add~c~r` `s.radd~c~r` `s.sub~c~r` `s.rsub~c~r`
+         (r = 1 iff isinstance(c, numbers.Real))
          `v.lmul~list` `v.rmul~list` `v.add~list` `v.radd~list` `v.sub~list` `v.rsub~list`
 Scalars/entries are Gaussian rationals `re` or `re:im`.
 -/
@@ -39,8 +40,8 @@ def sumTo (n : Nat) (f : Nat → CRat) : CRat := (List.range n).foldl (fun acc k
 def cpow (z : CRat) (p : Nat) : CRat := (List.replicate p z).foldl (· * ·) 1
 
 /-- executable leaf: its dispatch-visible info (id filled in later) and its map -/
-def parseLeaf (id : Nat) (s : String) : Option (Leaf × (V → V)) :=
-  match s.splitOn "~" with
+def parseLeafKind (id : Nat) (parts : List String) : Option (Leaf × (V → V)) :=
+  match parts with
   | ["mat", nd, nr, rows] => do
       let nd ← nd.toNat?
       let nr ← nr.toNat?
@@ -67,6 +68,12 @@ def parseLeaf (id : Nat) (s : String) : Option (Leaf × (V → V)) :=
   | ["powf", p] => do
       let p ← p.toNat?
       some (⟨id, .fld, .fld, false, false⟩, fun x => let v := cpow (x 0) p; fun _ => v)
+  | ["repart", n] => do   -- ComplexEmbedding ∘ RealPart on cn(n): real-linear only
+      let n ← n.toNat?
+      some (⟨id, .vec n, .vec n, true, false⟩, fun x j => if j < n then ⟨(x j).re, 0⟩ else 0)
+  | ["impart", n] => do   -- ComplexEmbedding ∘ ImagPart on cn(n)
+      let n ← n.toNat?
+      some (⟨id, .vec n, .vec n, true, false⟩, fun x j => if j < n then ⟨(x j).im, 0⟩ else 0)
   | ["inner", n, y] => do
       let n ← n.toNat?
       let y ← parseCList y
@@ -95,6 +102,19 @@ def parseLeaf (id : Nat) (s : String) : Option (Leaf × (V → V)) :=
   | ["zerof", n] => do
       let n ← n.toNat?
       some (⟨id, .vec n, .fld, true, true⟩, fun _ _ => 0)
+  | _ => none
+
+/-- `<lin><fn>~kind~…`: the two flags are read from the live object by the harness
+(`op.is_linear`, `isinstance(op, Functional)`); the kind only selects the executable map and
+the spaces. -/
+def parseLeaf (id : Nat) (s : String) : Option (Leaf × (V → V)) :=
+  match s.splitOn "~" with
+  | flags :: parts => do
+      let (l, f) ← parseLeafKind id parts
+      let (lin, fn) ← match flags with
+        | "00" => some (false, false) | "01" => some (false, true)
+        | "10" => some (true, false) | "11" => some (true, true) | _ => none
+      some ({ l with lin := lin, fn := fn }, f)
   | _ => none
 
 def parseLeaves (s : String) : Option (Array (Leaf × (V → V))) := do
@@ -139,15 +159,19 @@ def step (leaves : Array (Leaf × (V → V))) (st : List (Expr CRat)) (tok : Str
       match st with
       | b :: a :: r => some (.bin o a b :: r)
       | _ => none
-  | [o, arg] =>
-      match parseSOp o, parseVOp o, st with
-      | some so, _, a :: r => do
+  | [o, arg, re] =>
+      match parseSOp o, st with
+      | some so, a :: r => do
           let c ← CRat.parse arg
-          some (.sc so a c :: r)
-      | _, some vo, a :: r => do
+          let re ← match re with | "1" => some true | "0" => some false | _ => none
+          some (.sc so a c re :: r)
+      | _, _ => none
+  | [o, arg] =>
+      match parseVOp o, st with
+      | some vo, a :: r => do
           let v ← parseCList arg
           some (.vc vo a ⟨v.length, ofList v⟩ :: r)
-      | _, _, _ => none
+      | _, _ => none
   | _ => none
 
 def parseExpr (leaves : Array (Leaf × (V → V))) (s : String) : Option (Expr CRat) := do
